@@ -623,7 +623,10 @@ def d2_d3_mute(ctx):
         nm, at = work.pop()
         if nm is None:
             continue
-        inplace = [m for m in du.defs if m.var == nm and m.kind in ("mutate", "aug") and m.stmt is not None and du.cfg.reachable(m.node, du.cfg.node_for(at))]
+        strong_ = du.strong_reaching(nm, at)
+        # in-place updates of the value that reaches `at`: those that come after its (strong) definition, not the ones an intervening re-binding has overwritten
+        inplace = [m for m in du.defs if m.var == nm and m.kind in ("mutate", "aug") and m.stmt is not None and du.cfg.reachable(m.node, du.cfg.node_for(at))
+                   and any(d_.node.id == m.node.id or du.cfg.reachable(d_.node, m.node) for d_ in strong_ if d_.kind not in ("mutate",))]
         for m in inplace:
             if m.idx in visited:
                 continue
